@@ -2,11 +2,13 @@ module verif/harness
 
 go 1.24
 
-require github.com/refraction-networking/utls v0.0.0
+require (
+	github.com/andybalholm/brotli v1.0.6
+	github.com/klauspost/compress v1.17.4
+	github.com/refraction-networking/utls v0.0.0
+)
 
 require (
-	github.com/andybalholm/brotli v1.0.6 // indirect
-	github.com/klauspost/compress v1.17.4 // indirect
 	golang.org/x/crypto v0.36.0 // indirect
 	golang.org/x/sys v0.31.0 // indirect
 )
